@@ -14,6 +14,6 @@ for f in ('patch.diff', 'demo.py', 'notes.md'):
     if os.path.exists(os.path.join(src, f)):
         shutil.copy(os.path.join(src, f), dst)
 json.dump(dict(property=pid, variant=var, source='independent sub-agent given only the property text and its own scratch worktree',
-               needs_to_manifest=needs, confirmed=out[-2], what_i_ran=ran, base_commit='c917f5b'),
+               needs_to_manifest=needs, confirmed=out[-2], what_i_ran=ran, base_commit=subprocess.run(['git','-C','/repo','rev-parse','--short','HEAD'],capture_output=True,text=True).stdout.strip()),
           open(os.path.join(dst, 'meta.json'), 'w'), indent=1)
 print('kept', dst)
